@@ -8,6 +8,7 @@ package netx
 import (
 	"fmt"
 	"os"
+	"verifharness/chainx"
 	"verifharness/minex"
 
 	"go.uber.org/zap"
@@ -291,6 +292,37 @@ func (nt *Net) NewNodeWith(cm *chain.Manager, ip string, opts ...syncer.Option) 
 	n := &Node{Net: nt, CM: cm, S: s, Store: st, L: l, done: make(chan error, 1)}
 	go func() { n.done <- s.Run() }()
 	return n
+}
+
+// NewOldStoreNode starts a node whose store was written by the previous release: the blocks are
+// loaded into a manager over a fresh MemDB, the store is flushed, the records of its v2 blocks
+// above the require height are rewritten into the previous record layout (chainx.RewriteBlocksV2:
+// what such a database looks like after the migration has run) and the node is opened on that
+// database the way a restarted daemon opens it. It returns the number of old-layout records.
+func (nt *Net) NewOldStoreNode(blocks []types.Block, ip string, opts ...syncer.Option) (*Node, int, error) {
+	db := chain.NewMemDB()
+	store, tipState, err := chain.NewDBStore(db, nt.N, nt.Genesis, nil)
+	if err != nil {
+		return nil, 0, err
+	}
+	cm := chain.NewManager(store, tipState)
+	for _, b := range blocks {
+		if err := cm.AddBlocks([]types.Block{b}); err != nil {
+			return nil, 0, fmt.Errorf("loading a valid block failed: %w", err)
+		}
+	}
+	if err := store.Flush(); err != nil {
+		return nil, 0, err
+	}
+	k, err := chainx.RewriteBlocksV2(db, nt.N.HardforkV2.RequireHeight)
+	if err != nil {
+		return nil, k, err
+	}
+	store, tipState, err = chain.NewDBStore(db, nt.N, nt.Genesis, nil)
+	if err != nil {
+		return nil, k, fmt.Errorf("reopening the store: %w", err)
+	}
+	return nt.NewNodeWith(chain.NewManager(store, tipState), ip, opts...), k, nil
 }
 
 func (n *Node) Addr() string { return n.L.Addr().String() }
